@@ -98,37 +98,37 @@ theorem runCalls_snoc_state (f : σ → op → obs × σ) (s : σ) (h : List op)
   rw [runCalls_append]; simp [runCalls]
 
 /-- every object in the pool is the replay of its lineage. -/
-def Rel (f : σ → op → obs × σ) (init : σ) (p : Pool σ) (hp : Pool (List op)) : Prop :=
-  p.cur = hp.cur ∧ p.insts = hp.insts.map (fun h => (runCalls f init h).2)
+def Rel (f : σ → op → obs × σ) (p : Pool σ) (hp : Pool (Lin σ op)) : Prop :=
+  p.cur = hp.cur ∧ p.insts = hp.insts.map (fun l => (runCalls f l.1 l.2).2)
 
-theorem getD_map_replay (g : List op → σ) (l : List (List op)) (i : Nat) :
-    (l.map g).getD i (g []) = g (l.getD i []) := by
+theorem getD_map_replay (g : Lin σ op → σ) (l : List (Lin σ op)) (i : Nat) (d : Lin σ op) :
+    (l.map g).getD i (g d) = g (l.getD i d) := by
   simp [List.getD_eq_getElem?_getD]
 
-theorem step_rel (f : σ → op → obs × σ) (init : σ) (p : Pool σ) (hp : Pool (List op)) (o : POp op)
-    (h : Rel f init p hp) :
-    Rel f init (Pool.step f init p o).2 (Pool.step histStep [] hp o).2 ∧
-    (Pool.step f init p o).1 = (match o with | .call c => some (replayObs f init (hp.get []) c) | _ => none) := by
+theorem step_rel (f : σ → op → obs × σ) (init : σ) (p : Pool σ) (hp : Pool (Lin σ op)) (o : POp σ op)
+    (h : Rel f p hp) :
+    Rel f (Pool.step f init p o).2 (Pool.step histStep (init, []) hp (liftOp o)).2 ∧
+    (Pool.step f init p o).1 = (match o with | .call c => some (replayObs f (hp.get (init, [])) c) | _ => none) := by
   obtain ⟨hc, hi⟩ := h
-  have hinit : init = (runCalls f init []).2 := rfl
-  have hget : p.get init = (runCalls f init (hp.get [])).2 := by
+  have hinit : init = (fun l : Lin σ op => (runCalls f l.1 l.2).2) (init, []) := rfl
+  have hget : p.get init = (runCalls f (hp.get (init, [])).1 (hp.get (init, [])).2).2 := by
     unfold Pool.get
     rw [hi, hc]
     conv => lhs; rw [hinit]
-    exact getD_map_replay (fun h => (runCalls f init h).2) hp.insts hp.cur
+    exact getD_map_replay (fun l => (runCalls f l.1 l.2).2) hp.insts hp.cur (init, [])
   cases o with
   | call c =>
     refine ⟨⟨hc, ?_⟩, ?_⟩
-    · simp only [Pool.step, Pool.set, histStep]
+    · simp only [Pool.step, liftOp, Pool.set, histStep]
       rw [hi, hc, hget, List.map_set, runCalls_snoc_state]
     · simp only [Pool.step, replayObs, hget]
   | clone =>
     refine ⟨⟨hc, ?_⟩, rfl⟩
-    simp only [Pool.step, Pool.clone]
+    simp only [Pool.step, liftOp, Pool.clone]
     rw [hget, hi]; simp
   | use k =>
     refine ⟨?_, rfl⟩
-    simp only [Pool.step, Pool.use]
+    simp only [Pool.step, liftOp, Pool.use]
     have : p.insts.length = hp.insts.length := by rw [hi]; simp
     rw [this]
     split
@@ -136,7 +136,7 @@ theorem step_rel (f : σ → op → obs × σ) (init : σ) (p : Pool σ) (hp : P
     · exact ⟨hc, hi⟩
   | cloneFrom k =>
     refine ⟨?_, rfl⟩
-    simp only [Pool.step, Pool.cloneFrom]
+    simp only [Pool.step, liftOp, Pool.cloneFrom]
     have : p.insts.length = hp.insts.length := by rw [hi]; simp
     rw [this]
     split
@@ -145,11 +145,15 @@ theorem step_rel (f : σ → op → obs × σ) (init : σ) (p : Pool σ) (hp : P
       rw [hi, hc, List.map_set]
       congr 1
       conv => lhs; rw [hinit]
-      exact getD_map_replay (fun h => (runCalls f init h).2) hp.insts k
+      exact getD_map_replay (fun l => (runCalls f l.1 l.2).2) hp.insts k (init, [])
     · exact ⟨hc, hi⟩
+  | fresh s0 =>
+    refine ⟨⟨hc, ?_⟩, rfl⟩
+    simp only [Pool.step, liftOp, Pool.push]
+    rw [hi]; simp [runCalls]
 
-theorem run_rel (f : σ → op → obs × σ) (init : σ) (prog : List (POp op)) (p : Pool σ) (hp : Pool (List op))
-    (h : Rel f init p hp) :
+theorem run_rel (f : σ → op → obs × σ) (init : σ) (prog : List (POp σ op)) (p : Pool σ) (hp : Pool (Lin σ op))
+    (h : Rel f p hp) :
     (Pool.run f init p prog).1 = Pool.lineageObs f init hp prog := by
   induction prog generalizing p hp with
   | nil => rfl
@@ -159,19 +163,20 @@ theorem run_rel (f : σ → op → obs × σ) (init : σ) (prog : List (POp op))
     rw [ih _ _ h1, h2]
     cases o <;> rfl
 
-/-- **every observation of a program over any number of clones is what a fresh instance replaying the lineage
-    of the object it was made on would observe** — whatever was done to the other objects in between. -/
-theorem pool_lineage (f : σ → op → obs × σ) (init : σ) (prog : List (POp op)) :
-    (Pool.run f init ⟨[init], 0⟩ prog).1 = Pool.lineageObs f init ⟨[[]], 0⟩ prog :=
+/-- **every observation of a program over any number of clones, `clone_from`s and separately constructed instances is
+    what a fresh instance constructed like the lineage's origin and replaying the lineage of the object it was made on would
+    observe** — whatever was done to the other objects in between. -/
+theorem pool_lineage (f : σ → op → obs × σ) (init : σ) (prog : List (POp σ op)) :
+    (Pool.run f init ⟨[init], 0⟩ prog).1 = Pool.lineageObs f init ⟨[(init, [])], 0⟩ prog :=
   run_rel f init prog _ _ ⟨rfl, rfl⟩
-
 
 /-- non-vacuity: a counter object; clone after two calls, advance the original, overwrite the clone from the
     original (`clone_from`), interleave: the observations are those of the lineages. -/
 example :
     (Pool.run (fun (s : Nat) (o : Nat) => (s + o, s + o)) 0 ⟨[0], 0⟩
-      [.call 1, .call 2, .clone, .call 10, .use 1, .call 100, .cloneFrom 0, .call 5, .use 0, .call 7]).1
-      = [1, 3, 13, 103, 18, 20] := by decide
+      [.call 1, .call 2, .clone, .call 10, .use 1, .call 100, .cloneFrom 0, .call 5, .use 0, .call 7,
+       .fresh 1000, .use 2, .call 1, .cloneFrom 1, .call 1]).1
+      = [1, 3, 13, 103, 18, 20, 1001, 19] := by decide
 end pool
 
 end Thm.C16
